@@ -8,3 +8,5 @@ def rules(ctx):
     S.c01_r6_checksums_final(ctx)
     S.c01_r5_cow(ctx)
     S.walker_rules(ctx)
+    S.retained_checksum_rules(ctx)
+    S.c08_r8_flush_keeps_page(ctx)
